@@ -19,6 +19,8 @@ def handle (j : Json) : Except String Json := do
   | "fusion" => Driver.fusion j
   | "da" => Driver.da j
   | "hoist" => Driver.hoist j
+  | "prec" => Driver.prec j
+  | "prec_expr" => Driver.precExpr j
   | "time_expr" => Driver.timeExpr j
   | "default_order" => Driver.defaultOrder j
   | _ => throw s!"unknown op {op}"
